@@ -836,3 +836,114 @@ Proof.
   exact (conj est_keyed (conj est_C_no_row (conj est_ranked (conj A (conj B C))))).
 Qed.
 Print Assumptions C12_keyed_release_example.
+
+(* ------------------------------------------------------------------------------------------------
+   Round 5: towards the invariant [forall l, keyed s l] over the model with the repairs F16 and F17.
+   Primitive-level preservation at INTERMEDIATE states of a task step.  State hypotheses:
+   [Inv s] (C13), [WIx true X R s] / [WI true (t, P) s] (second invariant, no eager starts), and the
+   fixed lock order in table form: a PriorityTask with _waiting_on = l holds only locks < l. *)
+From Asynkit Require Import Sched.WaitInv Sched.WaitOps Sched.LockOps Sched.OrderInv Sched.OrderThms
+  Sched.OrderExample Sched.InheritChain Sched.InheritArrive Sched.InheritFinish Sched.InheritPrimsExample.
+
+(* The state hypotheses hold in every reachable state of the fixed-order domain. *)
+Theorem C12_keyed_prims_domain :
+  forall s t, reachable_ord s ->
+    Inv s /\ WI true (t, []) s /\
+    (forall x l l0, is_prio_task s x = true -> twaiting (gett s x) = Some l ->
+                    In l0 (tholding (gett s x)) -> l0 < l).
+Proof. exact reach_ord_prims. Qed.
+Print Assumptions C12_keyed_prims_domain.
+
+(* THE CORE (generalises C12_key_tracks_eprio (4) to chain tasks that are RUNNABLE and still queued,
+   and adds completeness): if every live entry is keyed by the current effective priority except
+   possibly the entries of o and of the tasks o waits for (transitively), then after
+   propagate_priority(o) EVERY live entry of EVERY lock is. *)
+Theorem C12_keyed_propagate_up :
+  forall ne X R s o,
+    Inv s -> WIx ne X R s ->
+    (forall x l l0, is_prio_task s x = true -> twaiting (gett s x) = Some l ->
+                    In l0 (tholding (gett s x)) -> l0 < l) ->
+    is_prio_task s o = true ->
+    (forall l0 e, In e (arr (lpq (getl s l0))) -> live s e ->
+                  ~ (entry_task (getl s l0) e = o \/ waits_tr s o (entry_task (getl s l0) e)) ->
+                  (epri e == wprio s (entry_task (getl s l0) e))%Q) ->
+    forall l0, keyed (propagate_priority s o) l0.
+Proof. intros ne X R s o I W O. exact (keyed_propagate_up ne X R s I W O o). Qed.
+Print Assumptions C12_keyed_propagate_up.
+
+(* A waiter ARRIVES: PriorityLock.acquire() up to its `await fut` (all paths: lock taken at once,
+   assertion, enqueue with the effective priority + propagate up the holder chain) keeps [keyed] for
+   every lock and the fixed order.  t is the calling task: not queued anywhere, and it holds only
+   locks below l (the condition checked by run_ord). *)
+Theorem C12_keyed_arrive :
+  forall s t l P,
+    Inv s -> t < length (tasks s) -> lkind_ (getl s l) = LPrio -> WI true (t, P) s ->
+    (forall x l1 l0, is_prio_task s x = true -> twaiting (gett s x) = Some l1 ->
+                     In l0 (tholding (gett s x)) -> l0 < l1) ->
+    (lkind_ (getl s l) = LPrio -> forall l0, In l0 (tholding (gett s t)) -> l0 < l) ->
+    (forall l0 g, ~ In (g, t) (lwt (getl s l0))) ->
+    (forall l0, keyed s l0) ->
+    (forall l0, keyed (fst (acquire_p_start s t l)) l0) /\
+    (forall x l1 l0, is_prio_task (fst (acquire_p_start s t l)) x = true ->
+                     twaiting (gett (fst (acquire_p_start s t l)) x) = Some l1 ->
+                     In l0 (tholding (gett (fst (acquire_p_start s t l)) x)) -> l0 < l1).
+Proof. exact keyed_arrive. Qed.
+Print Assumptions C12_keyed_arrive.
+
+(* A waiter LEAVES by exception (cancelled / interrupted / timed out): the `finally` of acquire()
+   removes the entry; if the lock stays locked its owner re-propagates (F16), through runnable chain
+   tasks too (F17); if it is free the next waiter is woken.  f is the waiter future of the frame
+   [InAcquireP l f had] the running task t has just popped. *)
+Theorem C12_keyed_leave :
+  forall s t l f had e rest,
+    Inv s -> t < length (tasks s) -> In f (objs s l) -> no_frame s f -> no_acq rest ->
+    WI true (t, InAcquireP l f had :: rest) s ->
+    (forall x l1 l0, is_prio_task s x = true -> twaiting (gett s x) = Some l1 ->
+                     In l0 (tholding (gett s x)) -> l0 < l1) ->
+    (forall l0, keyed s l0) ->
+    (forall l0, keyed (fst (acquire_p_finish s t l f had (RExc e))) l0) /\
+    (forall x l1 l0, is_prio_task (fst (acquire_p_finish s t l f had (RExc e))) x = true ->
+                     twaiting (gett (fst (acquire_p_finish s t l f had (RExc e))) x) = Some l1 ->
+                     In l0 (tholding (gett (fst (acquire_p_finish s t l f had (RExc e))) x)) -> l0 < l1).
+Proof.
+  intros s t l f had e rest I Ht Hf Hnf Hna W O K.
+  apply (keyed_finish s t l f had (RExc e) rest); auto. intros v H. discriminate H.
+Qed.
+Print Assumptions C12_keyed_leave.
+
+(* A waiter is GRANTED the lock (resumed with a value; its future was woken): it becomes the owner,
+   leaves the queue and is not queued anywhere else; the remaining waiters now boost it. *)
+Theorem C12_keyed_grant :
+  forall s t l f had v rest,
+    Inv s -> t < length (tasks s) -> In f (objs s l) -> no_frame s f -> no_acq rest ->
+    woken s f = true ->
+    WI true (t, InAcquireP l f had :: rest) s ->
+    (forall x l1 l0, is_prio_task s x = true -> twaiting (gett s x) = Some l1 ->
+                     In l0 (tholding (gett s x)) -> l0 < l1) ->
+    (forall l0, keyed s l0) ->
+    (forall l0, keyed (fst (acquire_p_finish s t l f had (RVal v))) l0) /\
+    (forall x l1 l0, is_prio_task (fst (acquire_p_finish s t l f had (RVal v))) x = true ->
+                     twaiting (gett (fst (acquire_p_finish s t l f had (RVal v))) x) = Some l1 ->
+                     In l0 (tholding (gett (fst (acquire_p_finish s t l f had (RVal v))) x)) -> l0 < l1).
+Proof.
+  intros s t l f had v rest I Ht Hf Hnf Hna Hw W O K.
+  apply (keyed_finish s t l f had (RVal v) rest); auto.
+Qed.
+Print Assumptions C12_keyed_grant.
+
+(* Non-vacuity of [C12_keyed_arrive] on the F17 scenario: in the reachable state [kpre] T (task 3,
+   priority -5) calls acquire(lock 0); the holder U is cancelled, RUNNABLE and still queued on lock 1
+   (owner O1, queued on lock 2).  The hypotheses hold and the THEOREM yields [keyed] for all locks
+   after the arrival; by computation the three queues are keyed -5 (T's, U's and O1's entries). *)
+Theorem C12_keyed_arrive_example :
+  reachable_ord kpre /\ task_is_runnable kpre 2 = true /\ twaiting (gett kpre 2) = Some 1 /\
+  (forall l0, keyed kpre l0) /\ (forall l0 g, ~ In (g, 3) (lwt (getl kpre l0))) /\
+  (forall l0, keyed (fst (acquire_p_start kpre 3 0)) l0) /\
+  map (fun l => map (fun e => (Qred (epri e), eobj e)) (arr (lpq (getl (fst (acquire_p_start kpre 3 0)) l)))) [0; 1; 2]
+    = [[((-5)%Q, 7%Z)]; [((-5)%Q, 4%Z)]; [((-5)%Q, 3%Z)]].
+Proof.
+  destruct kpre_arrive as (A & _ & C & D).
+  split; [exact kpre_reachable_ord|]. split; [exact D|]. split; [vm_compute; reflexivity|].
+  split; [exact kpre_keyed_all|]. split; [exact kpre_T_norow|]. split; [exact A|exact C].
+Qed.
+Print Assumptions C12_keyed_arrive_example.
